@@ -9,6 +9,21 @@ compares it with the specification table.  Calls of sibling closures of the
 wiring method (one predicate per wire direction, chosen once per wire) are
 inlined first (`specialise`).
 
+The callback handed to the subscriber may also be a name that the wiring method
+binds once per wire to one of several nested functions (one callback per
+direction): it is analysed as the dispatcher over those bindings
+(`_dispatcher`).
+
+R16.7 is a same-source agreement inside the forwarder: every comparison of the
+origin tag on which the decision to publish depends is made against the very
+value the forwarder stamps into untagged messages (resolved by definition
+through locals, closure variables, attributes bound once in __init__ and
+properties: `identity_source`).
+
+R16.8 is the agreement over the table the proxy advertises (`Proxy._worker`):
+the addr_* endpoints reported for a channel are those of the bridge object that
+was created for THAT channel, each under its own key.
+
 R16.6 is the agreement between the typed message classes of messages.py and
 the callback: a key that a message class defaults is present in every message
 of that class, so a callback that recognises "untagged" by the absence of
@@ -58,15 +73,90 @@ def forwarder(prog):
         raise AnalysisError('UNRECOGNISED-IDIOM %s: Subscriber(...) / '
                             '<name> = Publisher(...) not found' % cw.where)
     cb = kwarg(sub, 'cb')
-    if not isinstance(cb, ast.Name) or cb.id not in cw.nested:
+    if not isinstance(cb, ast.Name):
         raise AnalysisError('UNRECOGNISED-IDIOM %s: the subscriber callback '
                             'is not a function nested in crosswire_pubsub'
                             % cw.where)
     spec = getattr(cw, '_c16_spec', None)
-    if spec is None or spec[0] is not cw.nested[cb.id]:
-        spec = cw._c16_spec = (cw.nested[cb.id],
-                               specialise(prog, cw, cw.nested[cb.id]))
+    if spec is None or spec[0] is not cw.node:
+        base = cw.nested[cb.id] if _plain_def(cw, cb.id) else \
+            _dispatcher(cw, cb.id)
+        if base is None:
+            raise AnalysisError('UNRECOGNISED-IDIOM %s: the subscriber '
+                                'callback is not a function nested in '
+                                'crosswire_pubsub' % cw.where)
+        fwd = specialise(prog, cw, base)
+        closures = set(cw.nested) | {cb.id}
+        for s in walk(cw.node):
+            if isinstance(s, ast.Assign) and isinstance(s.value, ast.Name) \
+                    and s.value.id in cw.nested:
+                closures |= {t.id for t in s.targets
+                             if isinstance(t, ast.Name)}
+        closures &= _free_names(fwd.node)
+        for c in calls_in(fwd.node):
+            if isinstance(c.func, ast.Name) and c.func.id in closures:
+                raise AnalysisError(
+                    'UNRECOGNISED-IDIOM %s: the callback calls %s(), a '
+                    'closure of the wiring method that could not be inlined: '
+                    'what it does with the message is not decided'
+                    % (base.where, c.func.id))
+        spec = cw._c16_spec = (cw.node, fwd)
     return cw, spec[1], sub, pub, pubvar
+
+
+def _plain_def(cw, name):
+    """`name` is a function nested in the wiring method and nothing else is
+    ever bound to it"""
+    return name in cw.nested and not any(
+        isinstance(n, ast.Name) and n.id == name and
+        isinstance(n.ctx, (ast.Store, ast.Del))
+        for n in walk(cw.node, nested=True))
+
+
+def _dispatcher(cw, name):
+    """The callback handed to the subscriber is a name that the wiring method
+    binds, once per wire and under tests of its own never re-bound parameters,
+    to one of several nested functions (one callback per direction, chosen at
+    wiring time).  Testing the parameter once per wire or once per message is
+    the same, so the callback is analysed as the function
+
+        def <name>(<params>): <name>(<params>)
+
+    whose only statement `specialise` turns into the if-chain over those
+    tests with one inlined copy of the bound function per arm.  None if the
+    bindings are not decided."""
+    from ..model import FuncInfo
+    defs = _closure_defs(cw, name)
+    if not defs:
+        return None
+    sigs = set()
+    for gs, f in defs:
+        a = f.node.args
+        if a.vararg or a.kwarg or a.kwonlyargs or a.posonlyargs or a.defaults:
+            return None
+        sigs.add(len(a.args))
+    if len(sigs) != 1 or sigs.pop() < 2:
+        return None
+    first = defs[0][1].node
+    params = [a.arg for a in first.args.args]
+    call = ast.Call(func=ast.Name(id=name, ctx=ast.Load()),
+                    args=[ast.Name(id=p, ctx=ast.Load()) for p in params],
+                    keywords=[])
+    node = ast.FunctionDef(
+        name=name, args=ast.arguments(
+            posonlyargs=[], args=[ast.arg(arg=p) for p in params],
+            vararg=None, kwonlyargs=[], kw_defaults=[], kwarg=None,
+            defaults=[]),
+        body=[ast.Expr(value=call)], decorator_list=[], returns=None,
+        type_comment=None, type_params=[])
+    ast.copy_location(node, first)
+    for n in ast.walk(node):
+        if not hasattr(n, 'lineno') and isinstance(n, (ast.expr, ast.stmt,
+                                                       ast.arg)):
+            ast.copy_location(n, first)
+    ast.fix_missing_locations(node)
+    return FuncInfo(name, cw.qual + '.' + name, cw.module, cw.cls, node,
+                    parent=cw)
 
 
 # ------------------------------------------------------------------------------
@@ -243,6 +333,43 @@ def specialise(prog, cw, fwd):
                                              orelse=tail), s)]
         return tail
 
+    def simple(e):
+        return isinstance(e, (ast.Name, ast.Constant)) or (
+            isinstance(e, ast.Attribute) and simple(e.value))
+
+    def hoisted(s, local):
+        """`if h(..) == x:` with h a closure of the wiring method and x a
+        name / attribute path / constant -> (`v = h(..)`, `if v == x:`): the
+        call is evaluated exactly once and first either way (reading x has no
+        effect, and the closure cannot re-bind a local of the callback)"""
+        if not isinstance(s, ast.If):
+            return None
+        t = s.test
+        if isinstance(t, ast.UnaryOp) and isinstance(t.op, ast.Not):
+            t = t.operand
+        if not isinstance(t, ast.Compare) or len(t.ops) != 1:
+            return None
+        l, r = t.left, t.comparators[0]
+        for c, other in ((l, r), (r, l)):
+            if isinstance(c, ast.Call) and isinstance(c.func, ast.Name) and \
+                    c.func.id not in local and simple(other) and \
+                    _closure_defs(cw, c.func.id):
+                tmp = '%s__v%d' % (c.func.id, len(temps))
+                temps.append(tmp)
+                asg = ast.copy_location(ast.Assign(
+                    targets=[ast.Name(id=tmp, ctx=ast.Store())],
+                    value=c, lineno=s.lineno), s)
+                nm = ast.copy_location(ast.Name(id=tmp, ctx=ast.Load()), c)
+                if c is l:
+                    t.left = nm
+                else:
+                    t.comparators[0] = nm
+                ast.fix_missing_locations(asg)
+                return asg
+        return None
+
+    temps = []
+
     def do_block(stmts, local):
         out = []
         for s in stmts:
@@ -256,6 +383,14 @@ def specialise(prog, cw, fwd):
                     setattr(s, fld, do_block(b, local))
             for h in getattr(s, 'handlers', None) or []:
                 h.body = do_block(h.body, local)
+            pre = hoisted(s, local)
+            if pre is not None:
+                rep = replacement(pre, local)
+                if rep is None:
+                    out.append(pre)
+                else:
+                    count[0] += 1
+                    out += rep
             rep = replacement(s, local)
             if rep is None:
                 out.append(s)
@@ -282,15 +417,44 @@ def specialise(prog, cw, fwd):
 # ------------------------------------------------------------------------------
 # R16.1
 #
+def closure_aliases(cw, fn):
+    """names the callback `fn` reads as closure variables of the wiring method
+    `cw` which hold the side identity: bound exactly once in cw, to
+    `self._module`, never declared nonlocal (the callback runs after the
+    wiring method has returned, so the binding is made whenever it runs)"""
+    out = set()
+    free = _free_names(fn)
+    for n in walk(cw.node, nested=True):
+        if isinstance(n, (ast.Nonlocal, ast.Global)):
+            free -= set(n.names)
+    for nm in free:
+        if nm in cw.params:
+            continue
+        stores = [n for n in walk(cw.node) if isinstance(n, ast.Name) and
+                  n.id == nm and isinstance(n.ctx, (ast.Store, ast.Del))]
+        defs = [s for s in walk(cw.node) if isinstance(s, ast.Assign) and
+                len(s.targets) == 1 and isinstance(s.targets[0], ast.Name) and
+                s.targets[0].id == nm]
+        if len(stores) == 1 and len(defs) == 1 and \
+                unparse(defs[0].value) == 'self._module':
+            out.add(nm)
+    return out
+
+
 class Atoms:
     """classification of branch tests and statements of the forwarder"""
 
-    def __init__(self, msg, pubvar, fn=None):
+    def __init__(self, msg, pubvar, fn=None, cw=None, prog=None):
         self.msg = msg
         self.pubvar = pubvar
-        # locals of the callback that cache the side identity (bound once, to
-        # `self._module`, which has no writer outside __init__: R16.2)
+        self.fn, self.cw, self.prog = fn, cw, prog
+        self._ismod = {}
+        # locals of the callback (or of the wiring method, read by the
+        # callback as closure variables) that cache the side identity (bound
+        # once, to `self._module`, which has no writer outside __init__: R16.2)
         self.aliases = set()
+        if fn is not None and cw is not None:
+            self.aliases |= closure_aliases(cw, fn)
         if fn is not None:
             stores = {}
             for n in walk(fn):
@@ -304,15 +468,93 @@ class Atoms:
                         unparse(n.value) == 'self._module':
                     self.aliases.add(n.targets[0].id)
 
+        # locals of the callback that hold the origin tag: bound once, to
+        # msg['origin'] / msg.get('origin'), and the tag is not written on any
+        # path after that binding
+        self.origin_locals = {}
+        if fn is not None:
+            self._find_origin_locals(fn)
+
+    def _find_origin_locals(self, fn):
+        stores, defs = {}, {}
+        for n in walk(fn):
+            if isinstance(n, ast.Name) and \
+                    isinstance(n.ctx, (ast.Store, ast.Del)):
+                stores[n.id] = stores.get(n.id, 0) + 1
+            if isinstance(n, ast.Assign) and len(n.targets) == 1 and \
+                    isinstance(n.targets[0], ast.Name):
+                k, how = self._msg_key(n.value)
+                v = n.value
+                if k is None and isinstance(v, ast.Call) and \
+                        isinstance(v.func, ast.Attribute) and \
+                        v.func.attr == 'setdefault' and \
+                        self._is_msg(v.func.value) and len(v.args) == 2 and \
+                        isinstance(v.args[0], ast.Constant) and \
+                        v.args[0].value == 'origin' and not v.keywords:
+                    # the value of setdefault() is the (possibly just set) tag
+                    k, how = 'origin', 'get'
+                if k == 'origin':
+                    defs[n.targets[0].id] = (n, how)
+        cand = {nm: d for nm, d in defs.items() if stores.get(nm) == 1}
+        if not cand:
+            return
+        import types
+        g = cfg_of(types.SimpleNamespace(node=fn))
+        smap = I.stmt_node_map(g)
+        kills = []
+
+        def other_key(k):
+            return isinstance(k, ast.Constant) and k.value != 'origin'
+        for n in walk(fn):
+            t = None
+            if isinstance(n, (ast.Assign, ast.AugAssign, ast.AnnAssign)):
+                tg = n.targets if isinstance(n, ast.Assign) else [n.target]
+                t = [x for x in tg if isinstance(x, ast.Subscript) and
+                     self._is_msg(x.value) and not other_key(x.slice)]
+            elif isinstance(n, ast.Delete):
+                t = [x for x in n.targets if isinstance(x, ast.Subscript) and
+                     self._is_msg(x.value) and not other_key(x.slice)]
+            elif isinstance(n, ast.Call) and \
+                    isinstance(n.func, ast.Attribute) and \
+                    self._is_msg(n.func.value) and n.func.attr in I.MUTATING:
+                if not (n.func.attr in ('setdefault', 'pop') and n.args and
+                        other_key(n.args[0])):
+                    t = [n]
+            if t and id(n) in smap:
+                kills.append(smap[id(n)].id)
+        for nm, (d, how) in cand.items():
+            if id(d) not in smap:
+                continue
+            after = g.reachable(smap[id(d)].id)
+            if not any(k in after for k in kills
+                       if k != smap[id(d)].id):
+                self.origin_locals[nm] = how
+
     def _is_msg(self, e):
         return isinstance(e, ast.Name) and e.id == self.msg
 
     def is_module(self, e):
-        return unparse(e) == 'self._module' or (
-            isinstance(e, ast.Name) and e.id in self.aliases)
+        """e holds the side identity: `self._module`, or something bound
+        once to it (local, closure variable of the wiring method, attribute
+        of the session bound in __init__, property): identity_source"""
+        if unparse(e) == 'self._module' or (
+                isinstance(e, ast.Name) and e.id in self.aliases):
+            return True
+        if self.prog is None or self.cw is None or self.fn is None or \
+                not isinstance(e, (ast.Name, ast.Attribute)):
+            return False
+        k = unparse(e)
+        if k not in self._ismod:
+            src = identity_source(self.prog, self.cw, self.fn, e)
+            self._ismod[k] = src is not None and _same_source(
+                self.cw.cls, src, ('self', '_module'))
+        return self._ismod[k]
 
     def _msg_key(self, e):
         """'origin' for msg['origin'] / msg.get('origin'[, None|False])"""
+        if isinstance(e, ast.Name) and \
+                e.id in getattr(self, 'origin_locals', ()):
+            return 'origin', self.origin_locals[e.id]
         if isinstance(e, ast.Subscript) and self._is_msg(e.value) and \
                 isinstance(e.slice, ast.Constant):
             return e.slice.value, 'sub'
@@ -391,7 +633,7 @@ def extract_table(prog, rep, cw, fwd, pubvar):
         raise AnalysisError('UNRECOGNISED-IDIOM %s: callback is not '
                             '(topic, msg)' % fwd.where)
     msg = params[1]
-    at = Atoms(msg, pubvar, fwd.node)
+    at = Atoms(msg, pubvar, fwd.node, cw, prog)
     g = cfg_of(fwd)
     rep.stat('cfg_nodes', len(g.nodes))
     unknown_tests = set()
@@ -593,6 +835,7 @@ def outcomes_by_value(prog, fwd, pubvar, P, m):
                     env['@p'] = env.get('@p', 0) + 1
         inputs = dict(zip(switches, vals))
         inputs.update({'from_proxy': P, 'self._module': 'ME'})
+        inputs.update(_identity_inputs(prog, fwd))
         ip = Interp(prog, sess, inputs=inputs, observe=observe)
         exits = ip.run(fwd, {msg: dict(m), params[0]: 'topic'})
         # every feasible path must agree on the sequence of puts: group by
@@ -619,6 +862,30 @@ def outcomes_by_value(prog, fwd, pubvar, P, m):
                         True))
         outs.add((tuple(zip(switches, vals)), tuple(eff)))
     return outs
+
+
+def _identity_inputs(prog, fwd):
+    """{key: 'ME'} for the closure variables of the wiring method and the
+    attributes of the session, read by the callback, that are bound once to
+    the side identity"""
+    out = getattr(fwd, '_c16_idin', None)
+    if out is None:
+        out = fwd._c16_idin = {}
+        if fwd.parent is not None:
+            out.update({nm: 'ME' for nm in
+                        closure_aliases(fwd.parent, fwd.node)})
+            seen = set()
+            for n in walk(fwd.node):
+                if isinstance(n, ast.Attribute) and \
+                        isinstance(n.value, ast.Name) and \
+                        n.value.id == 'self' and n.attr != '_module' and \
+                        n.attr not in seen:
+                    seen.add(n.attr)
+                    src = identity_source(prog, fwd.parent, fwd.node, n)
+                    if src is not None and _same_source(
+                            fwd.parent.cls, src, ('self', '_module')):
+                        out['self.%s' % n.attr] = 'ME'
+    return out
 
 
 def table_by_value(prog, rep, cw, fwd, pubvar):
@@ -1901,6 +2168,584 @@ def r16_5(prog, rep, sides, rid='R16.5'):
 
 
 # ------------------------------------------------------------------------------
+# R16.7  the value compared with the origin tag is the value stamped as origin
+#
+# The forwarder recognises "own" messages by comparing msg['origin'] with the
+# identity of this side, and it is the forwarder that stamps that identity
+# into untagged messages.  Necessary for "never a second time to the side it
+# came from" and for "forwarded exactly once": both operands come from the
+# same source.  Sources are resolved by definition: through locals of the
+# callback and of the wiring method bound once, through attributes of the
+# session that are bound once (in __init__) to another attribute, and through
+# properties that return an attribute.
+#
+def _sole_writer(sess, attr):
+    """(FuncInfo, value expr) of the only statement that writes self.<attr>
+    anywhere in the class, if it is a plain assignment in __init__; else
+    None"""
+    table = getattr(sess, '_c16_writers', None)
+    if table is None:
+        table = sess._c16_writers = {}
+        for mname, f in sess.methods.items():
+            for kind, target, stmt in I.stores(f.node, nested=True):
+                a = _self_attr_root(target)
+                if a is not None:
+                    table.setdefault(a, []).append((f, kind, target, stmt))
+    writers = table.get(attr, [])
+    if len(writers) != 1:
+        return None
+    f, kind, target, stmt = writers[0]
+    if f.name != '__init__' or kind != 'assign' or \
+            not isinstance(stmt, ast.Assign) or len(stmt.targets) != 1 or \
+            unparse(target) != 'self.%s' % attr or stmt.targets[0] is not target:
+        return None
+    return f, stmt.value
+
+
+def _pure_lookup(e):
+    """expression made of constants and lookups in the process environment
+    only: evaluated twice in the same process it gives the same value"""
+    for n in ast.walk(e):
+        if isinstance(n, ast.Call) and call_name(n) not in _ENV_GET:
+            return False
+        if isinstance(n, ast.Name) and n.id not in ('os', 'environ'):
+            return False
+        if isinstance(n, (ast.Lambda, ast.Await, ast.Yield, ast.YieldFrom,
+                          ast.NamedExpr, ast.Starred)):
+            return False
+    return True
+
+
+def identity_source(prog, cw, fn, e, scope='cb', depth=0):
+    """where the value of expression `e` (read in the callback `fn`, a
+    function nested in the wiring method `cw`) comes from:
+    ('self', attr) | ('const', value) | ('wire', parameter of cw) |
+    ('global', name); None if that is not decided"""
+    sess = cw.cls
+    if depth > 6:
+        return None
+    if isinstance(e, ast.Constant):
+        return ('const', e.value)
+    if isinstance(e, ast.Call) and isinstance(e.func, ast.Name) and \
+            e.func.id == 'str' and len(e.args) == 1 and not e.keywords:
+        return identity_source(prog, cw, fn, e.args[0], scope, depth + 1)
+    if isinstance(e, ast.Name):
+        if scope == 'cb':
+            own = {a.arg for a in fn.args.posonlyargs + fn.args.args +
+                   fn.args.kwonlyargs}
+            if e.id in own:
+                return None
+            stores = [n for n in walk(fn) if isinstance(n, ast.Name) and
+                      n.id == e.id and isinstance(n.ctx, (ast.Store, ast.Del))]
+            if stores:
+                defs = [x for x in walk(fn) if isinstance(x, ast.Assign) and
+                        len(x.targets) == 1 and
+                        isinstance(x.targets[0], ast.Name) and
+                        x.targets[0].id == e.id]
+                if len(stores) != 1 or len(defs) != 1:
+                    return None
+                return identity_source(prog, cw, fn, defs[0].value, 'cb',
+                                       depth + 1)
+        for n in walk(cw.node, nested=True):
+            if isinstance(n, (ast.Nonlocal, ast.Global)) and e.id in n.names:
+                return None
+        stores = [n for n in walk(cw.node) if isinstance(n, ast.Name) and
+                  n.id == e.id and isinstance(n.ctx, (ast.Store, ast.Del))]
+        if e.id in cw.params:
+            return None if stores or e.id == 'self' else ('wire', e.id)
+        if stores:
+            defs = [x for x in walk(cw.node) if isinstance(x, ast.Assign) and
+                    len(x.targets) == 1 and
+                    isinstance(x.targets[0], ast.Name) and
+                    x.targets[0].id == e.id]
+            if len(stores) != 1 or len(defs) != 1:
+                return None
+            return identity_source(prog, cw, fn, defs[0].value, 'cw',
+                                   depth + 1)
+        if e.id in cw.nested:
+            return None
+        return ('global', e.id)
+    if isinstance(e, ast.Attribute) and isinstance(e.value, ast.Name) and \
+            e.value.id == 'self' and sess is not None:
+        attr = e.attr
+        for k in prog.mro(sess):
+            m = k.methods.get(attr)
+            if m is None:
+                continue
+            decos = [unparse(d) for d in m.node.decorator_list]
+            rets = [x for x in walk(m.node) if isinstance(x, ast.Return)]
+            if decos == ['property'] and len(rets) == 1 and \
+                    rets[0].value is not None and \
+                    len([x for x in m.node.body
+                         if not (isinstance(x, ast.Expr) and
+                                 isinstance(x.value, ast.Constant))]) == 1:
+                v = rets[0].value
+                if isinstance(v, ast.Attribute) and \
+                        isinstance(v.value, ast.Name) and v.value.id == 'self':
+                    return identity_source(prog, cw, fn, v, 'cw', depth + 1)
+            return None
+        w = _sole_writer(sess, attr)
+        if w is not None:
+            v = w[1]
+            if isinstance(v, ast.Attribute) and \
+                    isinstance(v.value, ast.Name) and v.value.id == 'self':
+                return identity_source(prog, cw, fn, v, 'cw', depth + 1)
+        return ('self', attr)
+    return None
+
+
+def _same_source(sess, a, b):
+    if a == b:
+        return True
+    if a[0] == 'self' and b[0] == 'self':
+        wa, wb = _sole_writer(sess, a[1]), _sole_writer(sess, b[1])
+        if wa is not None and wb is not None and \
+                ast.dump(wa[1]) == ast.dump(wb[1]) and _pure_lookup(wa[1]):
+            return True
+    return False
+
+
+def _source_text(src):
+    return {'self': 'self.%s', 'const': '%r', 'wire': 'the parameter `%s` '
+            'of the wiring method', 'global': 'the global `%s`'}[src[0]] \
+        % (src[1],)
+
+
+def _tag_sites(prog, sess, owner, fn, msg, pubvar, ctx, depth=0):
+    """(stamps, compares) of the origin tag of message variable `msg` in
+    function node `fn` and in the methods of the session it hands the message
+    to: [(node, operand expr, (scope FuncInfo, function node), owner)]"""
+    at = Atoms(msg, pubvar, fn)
+    stamps, compares = [], []
+    for n in walk(fn):
+        if isinstance(n, ast.Assign):
+            for t in n.targets:
+                if isinstance(t, ast.Subscript) and at._is_msg(t.value) and \
+                        isinstance(t.slice, ast.Constant) and \
+                        t.slice.value == 'origin':
+                    stamps.append((n, n.value, ctx, owner))
+        elif isinstance(n, ast.Call) and isinstance(n.func, ast.Attribute) \
+                and n.func.attr == 'setdefault' and at._is_msg(n.func.value) \
+                and len(n.args) == 2 and \
+                isinstance(n.args[0], ast.Constant) and \
+                n.args[0].value == 'origin':
+            stamps.append((n, n.args[1], ctx, owner))
+        elif isinstance(n, ast.Compare) and len(n.ops) == 1 and \
+                isinstance(n.ops[0], (ast.Eq, ast.NotEq)):
+            l, r = n.left, n.comparators[0]
+            for a, b in ((l, r), (r, l)):
+                k, how = at._msg_key(a)
+                if k != 'origin' or at._msg_key(b)[0] == 'origin':
+                    continue
+                if isinstance(b, ast.Constant) and (b.value is None or
+                                                    isinstance(b.value, bool)):
+                    continue            # presence test, not an identity test
+                compares.append((n, b, ctx, owner))
+                break
+        if isinstance(n, ast.Call) and isinstance(n.func, ast.Attribute) and \
+                isinstance(n.func.value, ast.Name) and \
+                n.func.value.id == 'self' and depth < 2:
+            g = prog.resolve_call(owner, n, sess)
+            if g is None or g.cls is None or g.node is fn:
+                continue
+            gp = [p for p in g.params if p not in ('self', 'cls')]
+            pname = None
+            for i, x in enumerate(n.args):
+                if at._is_msg(x) and i < len(gp):
+                    pname = gp[i]
+            for kw in n.keywords:
+                if kw.arg and at._is_msg(kw.value):
+                    pname = kw.arg
+            if pname is None or any(
+                    isinstance(x, ast.Name) and x.id == pname and
+                    isinstance(x.ctx, (ast.Store, ast.Del))
+                    for x in walk(g.node)):
+                continue
+            st, cm = _tag_sites(prog, sess, g, g.node, pname, None,
+                                (g, g.node), depth + 1)
+            stamps += st
+            compares += cm
+    return stamps, compares
+
+
+def r16_7(prog, rep, rid='R16.7'):
+    rep.rule(rid, "the forwarder compares the origin tag of a message with "
+             "the very value it stamps into untagged messages (both operands "
+             "have the same source: the side identity)", minimum=1)
+    cw, fwd, sub, pub, pubvar = forwarder(prog)
+    sess = prog.cls(*SESS)
+    params = fwd.params
+    if len(params) < 2:
+        raise AnalysisError('UNRECOGNISED-IDIOM %s: callback is not '
+                            '(topic, msg)' % fwd.where)
+    fn = fwd.node
+    stamps, compares = _tag_sites(prog, sess, fwd, fn, params[1], pubvar,
+                                  (cw, fn))
+    ssrc = []
+    for n, v, (scope, node), owner in stamps:
+        src = identity_source(prog, scope, node, v)
+        if src is None:
+            return          # (R16.1 decides or rejects the shape)
+        if not any(_same_source(sess, src, x) for x in ssrc):
+            ssrc.append(src)
+    if not ssrc:
+        # never tagged (R16.1 reports that): the tag other sides stamp is
+        # their Session._module, the identity R16.4 shows to differ per side
+        ssrc = [('self', '_module')]
+    g = cfg_of(fwd)
+    smap = I.stmt_node_map(g)
+    from ..flow import guards
+    # a comparison matters if the decision to publish depends on it: it is
+    # (or feeds) a test one arm of which reaches other puts than the other
+    # arm (a comparison that only selects a log line does not)
+    put_ids = {x.id for x in g.nodes if x.ast is not None and
+               x.kind in ('stmt', 'test') and any(
+                   isinstance(c.func, ast.Attribute) and
+                   c.func.attr == 'put' and unparse(c.func.value) == pubvar
+                   for c in calls_in(x.ast))}
+    deciding = []
+    for x in g.nodes:
+        if x.kind != 'test':
+            continue
+        arms = {e.label: frozenset(set(g.reachable(e.dst)) & put_ids)
+                for e in g.succ[x.id] if e.label in ('T', 'F')}
+        if len(set(arms.values())) > 1:
+            deciding.append(x)
+    deps = Deps(fn, nested=False)
+    feeds = set()
+    for t in deciding:
+        feeds |= set(deps.expr_depends(t.ast))
+
+    def matters(n, node):
+        if node is not fn or not put_ids:
+            return True
+        cn = smap.get(id(n))
+        if cn is None:
+            return False
+        if cn.kind == 'test':
+            if cn in deciding:
+                return True
+            # a verdict variable assigned under this test and read by a
+            # deciding test
+            for x in walk(fn):
+                if isinstance(x, (ast.If, ast.While)) and any(
+                        y is n for y in ast.walk(x.test)):
+                    stored = {y.id for part in (x.body, x.orelse)
+                              for st in part for y in ast.walk(st)
+                              if isinstance(y, ast.Name) and
+                              isinstance(y.ctx, ast.Store)}
+                    if stored & feeds:
+                        return True
+            return False
+        a = cn.ast
+        if isinstance(a, ast.Assign) and any(
+                isinstance(t, ast.Name) for t in a.targets):
+            names = {t.id for t in a.targets if isinstance(t, ast.Name)}
+            return bool(names & feeds)
+        return False
+
+    for n, other, (scope, node), owner in compares:
+        if not matters(n, node):
+            continue
+        src = identity_source(prog, scope, node, other)
+        if src is None:
+            continue
+        direction = None
+        cnode = smap.get(id(n)) if node is fn else None
+        if cnode is not None:
+            for tid, lab in guards(g, cnode.id):
+                t = g.nodes[tid].ast
+                if isinstance(t, ast.Name) and t.id == 'from_proxy':
+                    direction = lab == 'T'
+        where = {True: 'proxy -> local', False: 'local -> proxy',
+                 None: 'forwarding'}[direction]
+        ok = len(ssrc) == 1 and _same_source(sess, src, ssrc[0])
+        stamp_txt = ' / '.join(_source_text(x) for x in ssrc)
+        if direction is True:
+            cons = ('a message this side put on the proxy is not recognised '
+                    'as its own when it comes back: it is published a second '
+                    'time on the side it came from')
+        elif direction is False:
+            cons = ('a message published on this side with the forward flag '
+                    'is not recognised as its own and never leaves the side '
+                    '(or messages of other sides are sent back to the proxy)')
+        else:
+            cons = ('own messages are not recognised as own: they come back '
+                    'from the proxy a second time / never leave this side')
+        rep.check(ok, rid, fwd, 'the %s rule compares the origin tag with %s, '
+                  'the value stamped into untagged messages'
+                  % (where, _source_text(src)),
+                  construct='%s: origin compared with %s' % (
+                      where, unparse(other)),
+                  message='%s: the %s rule compares msg[\'origin\'] with %s, '
+                  'but untagged messages are stamped with %s: the two have '
+                  'different sources (nothing in %s binds one to the other), '
+                  'so the comparison does not tell whether the message '
+                  'originated on this side; %s'
+                  % (owner.qual, where, _source_text(src), stamp_txt,
+                     sess.name, cons), loc=owner.loc(n),
+                  history="a component of this side publishes {'cmd': ..., "
+                  "'fwd': True}: the local -> proxy forwarder stamps origin "
+                  "= %s; the %s forwarder then compares that tag with %s: %s"
+                  % (stamp_txt, where, _source_text(src), cons))
+
+
+# ------------------------------------------------------------------------------
+# R16.8  the endpoints the proxy advertises for a channel are those of the
+#        bridge it created for that channel
+#
+# `Proxy._worker` creates one bridge per proxy channel and reports a table
+# {channel: {addr_*: endpoint}} to the sessions (register / lookup ->
+# Session._publish_cfg -> registry `bridges.<channel>.addr_*` ->
+# crosswire_pubsub).  Every side publishes to `addr_pub` and subscribes at
+# `addr_sub` of the channel: if the table holds, under one channel, the
+# endpoint of another bridge (or the other endpoint of the right one), the
+# forwarded messages of that channel are put on a bridge nobody listens on.
+#
+PROXY = ('proxy.py', 'Proxy')
+
+
+def _bridges_of(prog, f):
+    """{local name: (channel, call)} for `name = <Bridge>(channel=<const>..)`
+    in f; a name bound to bridges of two channels is not decided"""
+    out = {}
+    for s in walk(f.node):
+        if not isinstance(s, ast.Assign) or not isinstance(s.value, ast.Call):
+            continue
+        ch = kwarg(s.value, 'channel')
+        if ch is None:
+            continue
+        v = prog.fold(f.module, ch, f.cls)
+        if not isinstance(v, str):
+            raise AnalysisError('UNRECOGNISED-IDIOM %s: channel of %s is not '
+                                'a constant' % (f.where, short(s.value)))
+        for t in s.targets:
+            if not isinstance(t, ast.Name):
+                raise AnalysisError('UNRECOGNISED-IDIOM %s: bridge not bound '
+                                    'to a local: %s' % (f.where, short(s)))
+            if t.id in out and out[t.id][0] != v:
+                raise AnalysisError('UNRECOGNISED-IDIOM %s: `%s` is bound to '
+                                    'bridges of two channels' % (f.where,
+                                                                 t.id))
+            out[t.id] = (v, s.value)
+    return out
+
+
+def _local_value(f, e, bridges, depth=0):
+    """follow locals bound once (ignoring `x = None` initialisations) and
+    str() wrappers"""
+    while depth < 6:
+        depth += 1
+        if isinstance(e, ast.Call) and isinstance(e.func, ast.Name) and \
+                e.func.id == 'str' and len(e.args) == 1 and not e.keywords:
+            e = e.args[0]
+            continue
+        if isinstance(e, ast.Name) and e.id not in bridges:
+            defs = [s.value for s in walk(f.node)
+                    if isinstance(s, ast.Assign) and any(
+                        isinstance(t, ast.Name) and t.id == e.id
+                        for t in s.targets) and not (
+                        isinstance(s.value, ast.Constant) and
+                        s.value.value is None)]
+            others = [n for n in walk(f.node) if isinstance(n, ast.Name) and
+                      n.id == e.id and isinstance(n.ctx, (ast.Store, ast.Del))]
+            nones = [s for s in walk(f.node) if isinstance(s, ast.Assign) and
+                     isinstance(s.value, ast.Constant) and
+                     s.value.value is None and any(
+                         isinstance(t, ast.Name) and t.id == e.id
+                         for t in s.targets)]
+            if len(defs) != 1 or len(others) != 1 + len(nones):
+                return e
+            e = defs[0]
+            continue
+        if isinstance(e, ast.Attribute):
+            inner = _local_value(f, e.value, bridges, depth)
+            if inner is not e.value:
+                e = ast.copy_location(ast.Attribute(value=inner, attr=e.attr,
+                                                    ctx=ast.Load()), e)
+        break
+    return e
+
+
+def _advertised(prog, f, bridges):
+    """[(channel, addr key, value expr, node)] of every table entry
+    {<channel>: {<addr key>: value}} built in f, as a literal, with dict(),
+    or by subscript stores"""
+    chans = {c for c, _ in bridges.values()}
+    out = []
+
+    def const(e):
+        v = prog.fold(f.module, e, f.cls) if e is not None else UNKNOWN
+        return v if isinstance(v, str) else None
+
+    def inner(ch, e, node):
+        e = _local_value(f, e, bridges)
+        if isinstance(e, ast.Dict):
+            for k, v in zip(e.keys, e.values):
+                a = const(k)
+                if a is None:
+                    raise AnalysisError(
+                        'UNRECOGNISED-IDIOM %s: the endpoint table of %s has '
+                        'a computed key' % (f.where, ch))
+                out.append((ch, a, v, node))
+            return True
+        if isinstance(e, ast.Call) and isinstance(e.func, ast.Name) and \
+                e.func.id == 'dict' and not e.args and \
+                all(k.arg for k in e.keywords):
+            for k in e.keywords:
+                out.append((ch, k.arg, k.value, node))
+            return True
+        if isinstance(e, ast.Call) and depth[0] < 2:
+            # a helper that builds the endpoint table of one bridge:
+            # `return {addr_*: <param>.addr_*}` with the bridge as argument
+            g = prog.resolve_call(f, e, f.cls)
+            if g is None and isinstance(e.func, ast.Name):
+                g = f.nested.get(e.func.id)
+            if g is None:
+                return False
+            body = [x for x in g.node.body if not (
+                isinstance(x, ast.Expr) and isinstance(x.value, ast.Constant))]
+            if len(body) != 1 or not isinstance(body[0], ast.Return) or \
+                    body[0].value is None or e.keywords or \
+                    any(isinstance(x, ast.Starred) for x in e.args):
+                return False
+            gp = [p for p in g.params if p not in ('self', 'cls')] \
+                if g.cls is not None else list(g.params)
+            if len(gp) != len(e.args):
+                return False
+            import copy
+            mapping = dict(zip(gp, e.args))
+
+            class Sub(ast.NodeTransformer):
+                def visit_Name(self, n):
+                    if n.id in mapping and isinstance(n.ctx, ast.Load):
+                        return copy.deepcopy(mapping[n.id])
+                    return n
+            ret = Sub().visit(copy.deepcopy(body[0].value))
+            for x in ast.walk(ret):
+                if not hasattr(x, 'lineno'):
+                    ast.copy_location(x, e)
+            ast.fix_missing_locations(ret)
+            depth[0] += 1
+            try:
+                return inner(ch, ret, node)
+            finally:
+                depth[0] -= 1
+        return False
+
+    depth = [0]
+
+    for n in walk(f.node):
+        if isinstance(n, ast.Dict):
+            for k, v in zip(n.keys, n.values):
+                ch = const(k)
+                if ch in chans and not inner(ch, v, n):
+                    raise AnalysisError(
+                        'UNRECOGNISED-IDIOM %s: the endpoints advertised for '
+                        '%s are not a table {addr_*: endpoint}: %s'
+                        % (f.where, ch, short(v)))
+        elif isinstance(n, ast.Call) and isinstance(n.func, ast.Name) and \
+                n.func.id == 'dict' and not n.args:
+            for k in n.keywords:
+                if k.arg in chans and not inner(k.arg, k.value, n):
+                    raise AnalysisError(
+                        'UNRECOGNISED-IDIOM %s: the endpoints advertised for '
+                        '%s are not a table {addr_*: endpoint}: %s'
+                        % (f.where, k.arg, short(k.value)))
+        elif isinstance(n, ast.Assign):
+            for t in n.targets:
+                if not isinstance(t, ast.Subscript):
+                    continue
+                ch = const(t.slice)
+                if ch in chans and isinstance(t.value, ast.Name):
+                    if not inner(ch, n.value, n):
+                        raise AnalysisError(
+                            'UNRECOGNISED-IDIOM %s: the endpoints advertised '
+                            'for %s are not a table {addr_*: endpoint}: %s'
+                            % (f.where, ch, short(n.value)))
+                elif isinstance(t.value, ast.Subscript) and \
+                        isinstance(t.value.value, ast.Name) and \
+                        const(t.value.slice) in chans:
+                    a = const(t.slice)
+                    if a is None:
+                        raise AnalysisError(
+                            'UNRECOGNISED-IDIOM %s: endpoint stored under a '
+                            'computed key: %s' % (f.where, short(n)))
+                    out.append((const(t.value.slice), a, n.value, n))
+    return out
+
+
+def r16_8(prog, rep, rid='R16.8'):
+    rep.rule(rid, 'the proxy advertises, for each of its channels, the '
+             'addr_pub / addr_sub endpoints of the bridge it created for '
+             'THAT channel (the table every side wires its forwarders from)',
+             minimum=4)
+    f = prog.method(PROXY[0], PROXY[1], '_worker')
+    rep.saw(f)
+    bridges = _bridges_of(prog, f)
+    need = []
+    for nm in ('PROXY_CONTROL_PUBSUB', 'PROXY_STATE_PUBSUB'):
+        v = prog.const(CONST, nm)
+        if not isinstance(v, str):
+            raise AnalysisError('anchor constants.%s not found' % nm)
+        need.append(v.lower())
+    have = {c for c, _ in bridges.values()}
+    for ch in need:
+        if ch not in have:
+            raise AnalysisError('UNRECOGNISED-IDIOM %s: no bridge is created '
+                                'for channel %s' % (f.where, ch))
+    by_channel = {}
+    for nm, (ch, call) in bridges.items():
+        by_channel.setdefault(ch, set()).add(nm)
+    entries = _advertised(prog, f, bridges)
+    seen = set()
+    for ch, key, val, node in entries:
+        if not key.startswith('addr_'):
+            continue
+        e = _local_value(f, val, bridges)
+        if not (isinstance(e, ast.Attribute) and isinstance(e.value, ast.Name)
+                and e.value.id in bridges):
+            raise AnalysisError(
+                'UNRECOGNISED-IDIOM %s: the %s endpoint advertised for %s is '
+                'not an attribute of a bridge created here: %s'
+                % (f.where, key, ch, short(val)))
+        got_ch, got_key = bridges[e.value.id][0], e.attr
+        seen.add((ch, key))
+        kind = 'state' if 'state' in ch else 'control' \
+            if 'control' in ch else ch
+        if got_ch != ch:
+            why = ('it is the %s endpoint of the bridge created for %s'
+                   % (got_key, got_ch))
+        else:
+            why = 'it is the %s endpoint of that bridge' % got_key
+        if key in ('addr_sub', 'addr_get'):
+            cons = ('every side sends forwarded %s messages to the %s bridge '
+                    'but listens for them at %s.%s, where they never show up: '
+                    'they reach no other side' % (kind, ch, got_ch, got_key))
+        else:
+            cons = ('every side listens on the %s bridge but sends forwarded '
+                    '%s messages to %s.%s: they reach no other side'
+                    % (ch, kind, got_ch, got_key))
+        rep.check(got_ch == ch and got_key == key, rid, f,
+                  '%s.%s is the %s of the bridge created for %s'
+                  % (ch, key, key, ch), construct='%s.%s' % (ch, key),
+                  message='%s: the table reported to the sessions advertises '
+                  '%s as `%s` of channel %s, but %s; %s'
+                  % (f.qual, unparse(e), key, ch, why, cons),
+                  loc=f.loc(val),
+                  history="one client, one pilot: a component publishes "
+                  "{'cmd': ..., 'fwd': True} on its %s pubsub; %s: delivered "
+                  "0 times on the other side (expected 1)" % (kind, cons))
+    for ch in need:
+        for key in ('addr_pub', 'addr_sub'):
+            if (ch, key) not in seen:
+                raise AnalysisError(
+                    'UNRECOGNISED-IDIOM %s: no `%s` endpoint is advertised '
+                    'for %s in a form the rule recognises' % (f.where, key,
+                                                              ch))
+
+
+# ------------------------------------------------------------------------------
 #
 def run(prog, rep, tier):
     rep.decided = ('the forwarder callback of Session.crosswire_pubsub '
@@ -1926,7 +2771,12 @@ def run(prog, rep, tier):
         'merged along the bases) is handled by the local -> proxy forwarder '
         'like the dict message with the same forward flag and no origin tag '
         '(R16.6); the class declaring the fwd item defaults it to false, RPC '
-        'requests / replies are constructed with fwd true.')
+        'requests / replies are constructed with fwd true; every comparison '
+        'of the origin tag that the decision to publish depends on has the '
+        'same source as the value stamped into untagged messages (R16.7); '
+        'the endpoint table Proxy._worker reports to the sessions gives, for '
+        'each proxy channel, the addr_* endpoints of the bridge created for '
+        'that channel, each under its own key (R16.8).')
     rep.undecided = ('delivery by the zmq bridges and the proxy (trusted); '
         'that the pilot ids handed to the agents differ; which other messages should '
         'carry the forward flag (policy, listed as information in the '
@@ -1951,6 +2801,13 @@ def run(prog, rep, tier):
         'every message of the class',
         'nothing but a forwarder publishes on a PROXY_ channel: the first '
         'forwarder a new message meets is a local -> proxy one',
+        'the attributes addr_pub / addr_sub (addr_put / addr_get) of a '
+        'ru.zmq bridge are the endpoints publishers / subscribers of its '
+        'channel connect to; the table returned by the proxy for register / '
+        'lookup is copied unchanged into the registry (Session._publish_cfg)',
+        'two attributes of the session with different writers hold '
+        'different values (the session id, the role ... are not the side '
+        'identity)',
         'clearing the forward flag before the put is defence in depth (the '
         'origin test alone prevents re-forwarding) and reported as '
         'information only',
@@ -1959,6 +2816,8 @@ def run(prog, rep, tier):
     rep.attempt(r16_2, prog, rep)
     rep.attempt(r16_3, prog, rep, tier=tier)
     rep.attempt(r16_6, prog, rep)
+    rep.attempt(r16_7, prog, rep)
+    rep.attempt(r16_8, prog, rep)
     sides = rep.attempt(_side_runs, prog, rep)
     if sides is not None:
         rep.attempt(r16_4, prog, rep, sides)
@@ -2246,6 +3105,87 @@ SILENT += [
         (_S, _WIRE_OLD, "        for src, tgt, back in [(rpc.CONTROL_PUBSUB, rpc.PROXY_CONTROL_PUBSUB, False),\n                               (rpc.PROXY_CONTROL_PUBSUB, rpc.CONTROL_PUBSUB, True),\n                               (rpc.STATE_PUBSUB, rpc.PROXY_STATE_PUBSUB, False),\n                               (rpc.PROXY_STATE_PUBSUB, rpc.STATE_PUBSUB, True)]:\n            self.crosswire_pubsub(src, tgt, from_proxy=back)\n\n\n")]),
 ]
 
+
+# ------------------------------------------------------------------------------
+# R16.7 / R16.8 / callback chosen at wiring time (seeds C16-g1, C16-g6, C16-r7)
+#
+_X = 'proxy.py'
+_FROM_CMP = "                if msg['origin'] == self._module:\n                    if LOG_ENABLED:\n                        self._log.debug_9('XXX >=! fwd"
+_TO_CMP = "                if not msg['origin'] == self._module:"
+_PX_TABLE = "            cfg = {'proxy_control_pubsub': {'addr_pub': str(proxy_cp.addr_pub),\n                                            'addr_sub': str(proxy_cp.addr_sub)},\n                    'proxy_state_pubsub' : {'addr_pub': str(proxy_sp.addr_pub),\n                                            'addr_sub': str(proxy_sp.addr_sub)},\n                    'proxy_task_queue'   : {'addr_put': str(proxy_tq.addr_put),\n                                            'addr_get': str(proxy_tq.addr_get)}}\n"
+_PX_STATE = "                    'proxy_state_pubsub' : {'addr_pub': str(proxy_sp.addr_pub),\n                                            'addr_sub': str(proxy_sp.addr_sub)},\n"
+_PX_CTRL = "            cfg = {'proxy_control_pubsub': {'addr_pub': str(proxy_cp.addr_pub),\n                                            'addr_sub': str(proxy_cp.addr_sub)},\n"
+_PX_WORKER = "    # --------------------------------------------------------------------------\n    #\n    def _worker(self, sid, q, term, path):\n"
+_FWD_R7 = "        module = self._module\n        log    = self._log\n\n        def mark_origin(msg):\n\n            if 'origin' not in msg:\n                msg['origin'] = module\n\n            return msg['origin']\n\n\n        def fwd_from_proxy(topic, msg):\n\n            # all messages *from* the proxy are forwarded - but not the ones\n            # which originated in *this* module in the first place.\n\n            if mark_origin(msg) == module:\n                if LOG_ENABLED:\n                    log.debug_9('XXX >=! fwd %s to topic:%s: %s', src, tgt, msg)\n                return\n\n            if LOG_ENABLED:\n                log.debug_9('XXX >=> fwd %s to topic:%s: %s', src, tgt, msg)\n\n            publisher.put(tgt, msg)\n\n\n        def fwd_to_proxy(topic, msg):\n\n            origin = mark_origin(msg)\n\n            # only forward messages which have the respective flag set\n            if not msg.get('fwd'):\n                if LOG_ENABLED:\n                    log.debug_9('XXX =>! fwd %s to %s: %s [%s - %s]',\n                                src, tgt, msg, origin, module)\n                return\n\n            # only forward all messages which originated in *this* module.\n            if origin != module:\n                if LOG_ENABLED:\n                    log.debug_9('XXX =>| fwd %s to topic:%s: %s', src, tgt, msg)\n                return\n\n            log.debug_9('XXX =>> fwd %s to topic:%s: %s', src, tgt, msg)\n\n            # avoid message loops (forward only once)\n            msg['fwd'] = False\n\n            if LOG_ENABLED:\n                log.debug_3('XXX =>> fwd %s to topic:%s: %s', src, tgt, msg)\n\n            publisher.put(tgt, msg)\n\n\n        # the direction is fixed at wiring time\n        if from_proxy: pubsub_fwd = fwd_from_proxy\n        else         : pubsub_fwd = fwd_to_proxy\n\n"
+_R7_SEL = "        if from_proxy: pubsub_fwd = fwd_from_proxy\n        else         : pubsub_fwd = fwd_to_proxy\n"
+
+MUTATIONS += [
+    dict(name='R16.7 seed C16-g1: proxy->local own-origin test compares with the session id', rules=('R16.7',), edits=[
+        (_S, _FROM_CMP, _FROM_CMP.replace('self._module', 'self._uid'))]),
+    dict(name='R16.7 local->proxy own-origin test compares with the session id', rules=('R16.7',), edits=[
+        (_S, _TO_CMP, "                if not msg['origin'] == self._uid:")]),
+    dict(name='R16.7 own-origin test in Yoda form against the session role', rules=('R16.7',), edits=[
+        (_S, _TO_CMP, "                if self._role != msg['origin']:")]),
+    dict(name='R16.7 untagged messages are stamped with the session id, compared with the module', rules=('R16.7',), edits=[
+        (_S, _TAG, "            if 'origin' not in msg:\n                msg['origin'] = self._uid\n")]),
+    dict(name='R16.7 proxy->local test against a constant side name', rules=('R16.7',), edits=[
+        (_S, _FROM_CMP, _FROM_CMP.replace('self._module', "'client'"))]),
+    dict(name='R16.7 wrong attribute cached in a local of the callback', rules=('R16.7',), edits=[
+        (_S, _FROM_CMP, "                me = self._uid\n" + _FROM_CMP.replace('self._module', 'me'))]),
+    dict(name='R16.7 callbacks per direction (seed C16-r7 shape): from-proxy callback compares with the session id', rules=('R16.7',), edits=[
+        (_S, _FWD_OLD, _FWD_R7.replace("            if mark_origin(msg) == module:", "            if mark_origin(msg) == self._uid:"))]),
+    dict(name='R16.1 callbacks per direction: bound to the wrong direction', rules=('R16.1',), edits=[
+        (_S, _FWD_OLD, _FWD_R7.replace(_R7_SEL, "        if from_proxy: pubsub_fwd = fwd_to_proxy\n        else         : pubsub_fwd = fwd_from_proxy\n"))]),
+    dict(name='R16.1 callbacks per direction: to-proxy callback without the forward test', rules=('R16.1',), edits=[
+        (_S, _FWD_OLD, _FWD_R7.replace("            if not msg.get('fwd'):\n                if LOG_ENABLED:\n                    log.debug_9('XXX =>! fwd %s to %s: %s [%s - %s]',\n                                src, tgt, msg, origin, module)\n                return\n", ""))]),
+    dict(name='R16.1 callbacks per direction: helper re-tags every message as own', rules=('R16.1',), edits=[
+        (_S, _FWD_OLD, _FWD_R7.replace("            if 'origin' not in msg:\n                msg['origin'] = module\n\n            return msg['origin']", "            msg['origin'] = module\n\n            return msg['origin']"))]),
+    dict(name='R16.8 seed C16-g6: state channel advertises the sub endpoint of the control bridge', rules=('R16.8',), edits=[
+        (_X, _PX_STATE, _PX_STATE.replace("str(proxy_sp.addr_sub)", "str(proxy_cp.addr_sub)"))]),
+    dict(name='R16.8 control channel advertises the pub endpoint of the state bridge', rules=('R16.8',), edits=[
+        (_X, _PX_CTRL, _PX_CTRL.replace("str(proxy_cp.addr_pub)", "str(proxy_sp.addr_pub)"))]),
+    dict(name='R16.8 pub and sub endpoints of the state bridge swapped', rules=('R16.8',), edits=[
+        (_X, _PX_STATE, "                    'proxy_state_pubsub' : {'addr_pub': str(proxy_sp.addr_sub),\n                                            'addr_sub': str(proxy_sp.addr_pub)},\n")]),
+    dict(name='R16.8 table filled by subscript stores, state entry from the control bridge', rules=('R16.8',), edits=[
+        (_X, _PX_TABLE, "            cfg = dict()\n            cfg['proxy_control_pubsub'] = {'addr_pub': str(proxy_cp.addr_pub),\n                                           'addr_sub': str(proxy_cp.addr_sub)}\n            cfg['proxy_state_pubsub']   = {'addr_pub': str(proxy_cp.addr_pub),\n                                           'addr_sub': str(proxy_sp.addr_sub)}\n            cfg['proxy_task_queue']     = {'addr_put': str(proxy_tq.addr_put),\n                                           'addr_get': str(proxy_tq.addr_get)}\n")]),
+]
+
+SILENT += [
+    dict(name='callbacks per direction chosen at wiring time, origin helper, cached identity (seed C16-r7)', edits=[
+        (_S, _FWD_OLD, _FWD_R7)]),
+    dict(name='callbacks per direction bound by a conditional expression', edits=[
+        (_S, _FWD_OLD, _FWD_R7.replace(_R7_SEL, "        pubsub_fwd = fwd_from_proxy if from_proxy else fwd_to_proxy\n"))]),
+    dict(name='callbacks per direction bound under the negated test', edits=[
+        (_S, _FWD_OLD, _FWD_R7.replace(_R7_SEL, "        if not from_proxy:\n            pubsub_fwd = fwd_to_proxy\n        else:\n            pubsub_fwd = fwd_from_proxy\n"))]),
+    dict(name='callbacks per direction, own test in Yoda form', edits=[
+        (_S, _FWD_OLD, _FWD_R7.replace("            if mark_origin(msg) == module:", "            if module == mark_origin(msg):"))]),
+    dict(name='own-origin test against a local caching the side identity', edits=[
+        (_S, _FROM_CMP, "                me = self._module\n" + _FROM_CMP.replace('self._module', 'me'))]),
+    dict(name='origin tag read once into a local, both directions', edits=[
+        (_S, _TAG, _TAG + "            origin = msg['origin']\n"),
+        (_S, _FROM_CMP, _FROM_CMP.replace("msg['origin'] == self._module", "origin == self._module")),
+        (_S, _TO_CMP, "                if origin != self._module:")]),
+    dict(name='side identity also kept under a second attribute bound in __init__', edits=[
+        (_S, _MOD, _MOD + "        self._side   = self._module\n"),
+        (_S, _FROM_CMP, _FROM_CMP.replace('self._module', 'self._side')),
+        (_S, _TO_CMP, "                if not msg['origin'] == self._side:")]),
+    dict(name='side identity read through a property', edits=[
+        (_S, _HELPER_AT, "    @property\n    def module(self):\n        return self._module\n\n\n" + _HELPER_AT),
+        (_S, _FROM_CMP, _FROM_CMP.replace('self._module', 'self.module'))]),
+    dict(name='origin tag compared with a constant to select a log line only', edits=[
+        (_S, _TAG, _TAG + "            if LOG_ENABLED and msg.get('origin') == 'client':\n                self._log.debug_9('XXX from client: %s', msg)\n")]),
+    dict(name='proxy table: endpoints hoisted into locals', edits=[
+        (_X, _PX_TABLE, "            sp_pub = str(proxy_sp.addr_pub)\n            sp_sub = str(proxy_sp.addr_sub)\n" + _PX_TABLE.replace("{'addr_pub': str(proxy_sp.addr_pub),", "{'addr_pub': sp_pub,").replace("'addr_sub': str(proxy_sp.addr_sub)}", "'addr_sub': sp_sub}"))]),
+    dict(name='proxy table: filled by subscript stores, other order', edits=[
+        (_X, _PX_TABLE, "            cfg = dict()\n            cfg['proxy_state_pubsub']   = {'addr_sub': str(proxy_sp.addr_sub),\n                                           'addr_pub': str(proxy_sp.addr_pub)}\n            cfg['proxy_task_queue']     = {'addr_put': str(proxy_tq.addr_put),\n                                           'addr_get': str(proxy_tq.addr_get)}\n            cfg['proxy_control_pubsub'] = {}\n            cfg['proxy_control_pubsub']['addr_pub'] = str(proxy_cp.addr_pub)\n            cfg['proxy_control_pubsub']['addr_sub'] = str(proxy_cp.addr_sub)\n")]),
+    dict(name='proxy table: spelled with dict()', edits=[
+        (_X, _PX_TABLE, "            cfg = dict(proxy_control_pubsub=dict(addr_pub=str(proxy_cp.addr_pub),\n                                                 addr_sub=str(proxy_cp.addr_sub)),\n                       proxy_state_pubsub=dict(addr_pub=str(proxy_sp.addr_pub),\n                                               addr_sub=str(proxy_sp.addr_sub)),\n                       proxy_task_queue=dict(addr_put=str(proxy_tq.addr_put),\n                                             addr_get=str(proxy_tq.addr_get)))\n")]),
+    dict(name='proxy table: endpoint pair of a pubsub built by an extracted helper', edits=[
+        (_X, _PX_WORKER, "    @staticmethod\n    def _endpoints(bridge):\n\n        return {'addr_pub': str(bridge.addr_pub),\n                'addr_sub': str(bridge.addr_sub)}\n\n\n" + _PX_WORKER),
+        (_X, _PX_TABLE, "            cfg = {'proxy_control_pubsub': self._endpoints(proxy_cp),\n                   'proxy_state_pubsub'  : self._endpoints(proxy_sp),\n                   'proxy_task_queue'    : {'addr_put': str(proxy_tq.addr_put),\n                                            'addr_get': str(proxy_tq.addr_get)}}\n")]),
+    dict(name='proxy table: bridge reached through a second local', edits=[
+        (_X, _PX_TABLE, "            state_bridge = proxy_sp\n" + _PX_TABLE.replace("str(proxy_sp.addr_sub)", "str(state_bridge.addr_sub)"))]),
+]
 
 from .c14 import corpus_variants          # noqa: E402
 SILENT += corpus_variants('C16')
